@@ -1,472 +1,1 @@
-/-
-GENERATED by vextract (tfgen.go) from the Go source (list_impl.go, object_impl.go, anytype.go) — do not edit.
-
-A translation of the tree-form methods, the serialize() methods and FormatString into Lean, in
-the vocabulary of the hand-written model (the restructuring rules are listed at the top of
-vextract/tfgen.go).  Lemmas/TreeFormGenEq.lean proves each definition equal to the model function.
--/
-import Anytype.Model.TreeForm
-import Anytype.Model.Indent
-namespace Anytype.Generated
-open Anytype
-
-mutual
-/-- `(*list).GetTF` (list_impl.go:1014) -/
-def getLGen : Nat → Heap → Nat → Str → Out Val
-  | 0, _, _, _ => .panic .runtime
-  | fuel + 1, h, a, tf =>
-    match TF.strip '#' tf with
-    | none => .panic .badTF
-    | some tf_1 =>
-      let dot := TF.indexOf '.' tf_1
-      let hash := TF.indexOf '#' tf_1
-      if dot > 0 && (hash < 0 || dot < hash) then
-        match parseIntBase0 (tf_1.take dot.toNat) with
-        | none => .panic .badInt
-        | some integer =>
-          match L.getK h a .object integer with
-          | .ok (.obj r) => getOGen fuel h r.addr (tf_1.drop dot.toNat)
-          | .ok _ => .panic .runtime
-          | .panic p => .panic p
-      else if hash > 0 && (dot < 0 || hash < dot) then
-        match parseIntBase0 (tf_1.take hash.toNat) with
-        | none => .panic .badInt
-        | some integer_1 =>
-          match L.getK h a .list integer_1 with
-          | .ok (.list r_1) => getLGen fuel h r_1.addr (tf_1.drop hash.toNat)
-          | .ok _ => .panic .runtime
-          | .panic p => .panic p
-      else
-        match parseIntBase0 tf_1 with
-        | none => .panic .badInt
-        | some integer_2 => L.get h a integer_2
-
-/-- `(*object).GetTF` (object_impl.go:568) -/
-def getOGen : Nat → Heap → Nat → Str → Out Val
-  | 0, _, _, _ => .panic .runtime
-  | fuel + 1, h, a, tf =>
-    match TF.strip '.' tf with
-    | none => .panic .badTF
-    | some tf_1 =>
-      let dot := TF.indexOf '.' tf_1
-      let hash := TF.indexOf '#' tf_1
-      if dot > 0 && (hash < 0 || dot < hash) then
-        let key := tf_1.take dot.toNat
-        match O.getK h a .object key with
-        | .ok (.obj r) => getOGen fuel h r.addr (tf_1.drop dot.toNat)
-        | .ok _ => .panic .runtime
-        | .panic p => .panic p
-      else if hash > 0 && (dot < 0 || hash < dot) then
-        let key_1 := tf_1.take hash.toNat
-        match O.getK h a .list key_1 with
-        | .ok (.list r_1) => getLGen fuel h r_1.addr (tf_1.drop hash.toNat)
-        | .ok _ => .panic .runtime
-        | .panic p => .panic p
-      else O.get h a tf_1
-end
-
-mutual
-/-- `(*list).TypeOfTF` (list_impl.go:1146) -/
-def typeLGen : Nat → Heap → Nat → Str → Out Kind
-  | 0, _, _, _ => .ok .undefined
-  | fuel + 1, h, a, tf =>
-    match TF.strip '#' tf with
-    | none => .ok .undefined
-    | some tf_1 =>
-      let dot := TF.indexOf '.' tf_1
-      let hash := TF.indexOf '#' tf_1
-      if dot > 0 && (hash < 0 || dot < hash) then
-        match parseIntBase0 (tf_1.take dot.toNat) with
-        | none => .ok .undefined
-        | some integer =>
-          if L.typeOf h a integer != .object then .ok .undefined
-          else
-            match L.getK h a .object integer with
-            | .ok (.obj r) => typeOGen fuel h r.addr (tf_1.drop dot.toNat)
-            | .ok _ => .panic .runtime
-            | .panic p => .panic p
-      else if hash > 0 && (dot < 0 || hash < dot) then
-        match parseIntBase0 (tf_1.take hash.toNat) with
-        | none => .ok .undefined
-        | some integer_1 =>
-          if L.typeOf h a integer_1 != .list then .ok .undefined
-          else
-            match L.getK h a .list integer_1 with
-            | .ok (.list r_1) => typeLGen fuel h r_1.addr (tf_1.drop hash.toNat)
-            | .ok _ => .panic .runtime
-            | .panic p => .panic p
-      else
-        match parseIntBase0 tf_1 with
-        | none => .ok .undefined
-        | some integer_2 => .ok (L.typeOf h a integer_2)
-
-/-- `(*object).TypeOfTF` (object_impl.go:642) -/
-def typeOGen : Nat → Heap → Nat → Str → Out Kind
-  | 0, _, _, _ => .ok .undefined
-  | fuel + 1, h, a, tf =>
-    match TF.strip '.' tf with
-    | none => .ok .undefined
-    | some tf_1 =>
-      let dot := TF.indexOf '.' tf_1
-      let hash := TF.indexOf '#' tf_1
-      if dot > 0 && (hash < 0 || dot < hash) then
-        let key := tf_1.take dot.toNat
-        if !(O.keyExists h a key) || O.typeOf h a key != .object then .ok .undefined
-        else
-          match O.getK h a .object key with
-          | .ok (.obj r) => typeOGen fuel h r.addr (tf_1.drop dot.toNat)
-          | .ok _ => .panic .runtime
-          | .panic p => .panic p
-      else if hash > 0 && (dot < 0 || hash < dot) then
-        let key_1 := tf_1.take hash.toNat
-        if !(O.keyExists h a key_1) || O.typeOf h a key_1 != .list then .ok .undefined
-        else
-          match O.getK h a .list key_1 with
-          | .ok (.list r_1) => typeLGen fuel h r_1.addr (tf_1.drop hash.toNat)
-          | .ok _ => .panic .runtime
-          | .panic p => .panic p
-      else if !(O.keyExists h a tf_1) then .ok .undefined
-      else .ok (O.typeOf h a tf_1)
-end
-
-/-- the loop at list_impl.go:1059, run `k` times -/
-def setLGen_loop1 (a : Nat) : Nat → Heap → Heap × Out Unit
-  | 0, h => (h, .ok ())
-  | k + 1, h =>
-    match L.add h a [.nil] with
-    | (h_1, .panic p) => (h_1, .panic p)
-    | (h_1, .ok _) => setLGen_loop1 a k h_1
-
-/-- the loop at list_impl.go:1084, run `k` times -/
-def setLGen_loop2 (a : Nat) : Nat → Heap → Heap × Out Unit
-  | 0, h => (h, .ok ())
-  | k + 1, h =>
-    match L.add h a [.nil] with
-    | (h_1, .panic p) => (h_1, .panic p)
-    | (h_1, .ok _) => setLGen_loop2 a k h_1
-
-/-- the loop at list_impl.go:1106, run `k` times -/
-def setLGen_loop3 (a : Nat) : Nat → Heap → Heap × Out Unit
-  | 0, h => (h, .ok ())
-  | k + 1, h =>
-    match L.add h a [.nil] with
-    | (h_1, .panic p) => (h_1, .panic p)
-    | (h_1, .ok _) => setLGen_loop3 a k h_1
-
-mutual
-/-- `(*list).SetTF` (list_impl.go:1042) -/
-def setLGen : Nat → Heap → Nat → Str → GoVal → Heap × Out Unit
-  | 0, h, _, _, _ => (h, .panic .runtime)
-  | fuel + 1, h, a, tf, value =>
-    match TF.strip '#' tf with
-    | none => (h, .panic .badTF)
-    | some tf_1 =>
-      let dot := TF.indexOf '.' tf_1
-      let hash := TF.indexOf '#' tf_1
-      if dot > 0 && (hash < 0 || dot < hash) then
-        match parseIntBase0 (tf_1.take dot.toNat) with
-        | none => (h, .panic .badInt)
-        | some integer =>
-          let count := L.count h a
-          if integer >= count then
-            match O.new h [] false with
-            | (h_1, .panic p) => (h_1, .panic p)
-            | (h_1, .ok r) =>
-              match setLGen_loop1 a (integer - count).toNat h_1 with
-              | (h_2, .panic p) => (h_2, .panic p)
-              | (h_2, .ok _) =>
-                match L.add h_2 a [(.obj r)] with
-                | (h_3, .panic p) => (h_3, .panic p)
-                | (h_3, .ok _) =>
-                  match setOGen fuel h_3 r.addr (tf_1.drop dot.toNat) value with
-                  | (h_4, .panic p) => (h_4, .panic p)
-                  | (h_4, .ok _) => (h_4, .ok ())
-          else if L.typeOf h a integer == .object then
-            match L.getK h a .object integer with
-            | .ok (.obj r_1) =>
-              match setOGen fuel h r_1.addr (tf_1.drop dot.toNat) value with
-              | (h_5, .panic p) => (h_5, .panic p)
-              | (h_5, .ok _) => (h_5, .ok ())
-            | .ok _ => (h, .panic .runtime)
-            | .panic p => (h, .panic p)
-          else
-            match O.new h [] false with
-            | (h_6, .panic p) => (h_6, .panic p)
-            | (h_6, .ok r_2) =>
-              match L.replace h_6 a integer (.obj r_2) with
-              | (h_7, .panic p) => (h_7, .panic p)
-              | (h_7, .ok _) =>
-                match setOGen fuel h_7 r_2.addr (tf_1.drop dot.toNat) value with
-                | (h_8, .panic p) => (h_8, .panic p)
-                | (h_8, .ok _) => (h_8, .ok ())
-      else if hash > 0 && (dot < 0 || hash < dot) then
-        match parseIntBase0 (tf_1.take hash.toNat) with
-        | none => (h, .panic .badInt)
-        | some integer_1 =>
-          let count_1 := L.count h a
-          if integer_1 >= count_1 then
-            match L.new h [] with
-            | (h_9, .panic p) => (h_9, .panic p)
-            | (h_9, .ok r_3) =>
-              match setLGen_loop2 a (integer_1 - count_1).toNat h_9 with
-              | (h_10, .panic p) => (h_10, .panic p)
-              | (h_10, .ok _) =>
-                match L.add h_10 a [(.list r_3)] with
-                | (h_11, .panic p) => (h_11, .panic p)
-                | (h_11, .ok _) =>
-                  match setLGen fuel h_11 r_3.addr (tf_1.drop hash.toNat) value with
-                  | (h_12, .panic p) => (h_12, .panic p)
-                  | (h_12, .ok _) => (h_12, .ok ())
-          else if L.typeOf h a integer_1 == .list then
-            match L.getK h a .list integer_1 with
-            | .ok (.list r_4) =>
-              match setLGen fuel h r_4.addr (tf_1.drop hash.toNat) value with
-              | (h_13, .panic p) => (h_13, .panic p)
-              | (h_13, .ok _) => (h_13, .ok ())
-            | .ok _ => (h, .panic .runtime)
-            | .panic p => (h, .panic p)
-          else
-            match L.new h [] with
-            | (h_14, .panic p) => (h_14, .panic p)
-            | (h_14, .ok r_5) =>
-              match L.replace h_14 a integer_1 (.list r_5) with
-              | (h_15, .panic p) => (h_15, .panic p)
-              | (h_15, .ok _) =>
-                match setLGen fuel h_15 r_5.addr (tf_1.drop hash.toNat) value with
-                | (h_16, .panic p) => (h_16, .panic p)
-                | (h_16, .ok _) => (h_16, .ok ())
-      else
-        match parseIntBase0 tf_1 with
-        | none => (h, .panic .badInt)
-        | some integer_2 =>
-          let count_2 := L.count h a
-          if integer_2 >= count_2 then
-            match setLGen_loop3 a (integer_2 - count_2).toNat h with
-            | (h_17, .panic p) => (h_17, .panic p)
-            | (h_17, .ok _) =>
-              match L.add h_17 a [value] with
-              | (h_18, .panic p) => (h_18, .panic p)
-              | (h_18, .ok _) => (h_18, .ok ())
-          else
-            match L.replace h a integer_2 value with
-            | (h_19, .panic p) => (h_19, .panic p)
-            | (h_19, .ok _) => (h_19, .ok ())
-
-/-- `(*object).SetTF` (object_impl.go:586) -/
-def setOGen : Nat → Heap → Nat → Str → GoVal → Heap × Out Unit
-  | 0, h, _, _, _ => (h, .panic .runtime)
-  | fuel + 1, h, a, tf, value =>
-    match TF.strip '.' tf with
-    | none => (h, .panic .badTF)
-    | some tf_1 =>
-      let dot := TF.indexOf '.' tf_1
-      let hash := TF.indexOf '#' tf_1
-      if dot > 0 && (hash < 0 || dot < hash) then
-        let key := tf_1.take dot.toNat
-        if O.typeOf h a key == .object then
-          match O.getK h a .object key with
-          | .ok (.obj r) =>
-            match setOGen fuel h r.addr (tf_1.drop dot.toNat) value with
-            | (h_1, .panic p) => (h_1, .panic p)
-            | (h_1, .ok _) => (h_1, .ok ())
-          | .ok _ => (h, .panic .runtime)
-          | .panic p => (h, .panic p)
-        else
-          match O.new h [] false with
-          | (h_2, .panic p) => (h_2, .panic p)
-          | (h_2, .ok r_1) =>
-            match O.set h_2 a [(some key, (.obj r_1))] false with
-            | (h_3, .panic p) => (h_3, .panic p)
-            | (h_3, .ok _) =>
-              match setOGen fuel h_3 r_1.addr (tf_1.drop dot.toNat) value with
-              | (h_4, .panic p) => (h_4, .panic p)
-              | (h_4, .ok _) => (h_4, .ok ())
-      else if hash > 0 && (dot < 0 || hash < dot) then
-        let key_1 := tf_1.take hash.toNat
-        if O.typeOf h a key_1 == .list then
-          match O.getK h a .list key_1 with
-          | .ok (.list r_2) =>
-            match setLGen fuel h r_2.addr (tf_1.drop hash.toNat) value with
-            | (h_5, .panic p) => (h_5, .panic p)
-            | (h_5, .ok _) => (h_5, .ok ())
-          | .ok _ => (h, .panic .runtime)
-          | .panic p => (h, .panic p)
-        else
-          match L.new h [] with
-          | (h_6, .panic p) => (h_6, .panic p)
-          | (h_6, .ok r_3) =>
-            match O.set h_6 a [(some key_1, (.list r_3))] false with
-            | (h_7, .panic p) => (h_7, .panic p)
-            | (h_7, .ok _) =>
-              match setLGen fuel h_7 r_3.addr (tf_1.drop hash.toNat) value with
-              | (h_8, .panic p) => (h_8, .panic p)
-              | (h_8, .ok _) => (h_8, .ok ())
-      else
-        match O.set h a [(some tf_1, value)] false with
-        | (h_9, .panic p) => (h_9, .panic p)
-        | (h_9, .ok _) => (h_9, .ok ())
-end
-
-mutual
-/-- `(*list).UnsetTF` (list_impl.go:1114) -/
-def unsetLGen : Nat → Heap → Nat → Str → Heap × Out Unit
-  | 0, h, _, _ => (h, .panic .runtime)
-  | fuel + 1, h, a, tf =>
-    match TF.strip '#' tf with
-    | none => (h, .panic .badTF)
-    | some tf_1 =>
-      let dot := TF.indexOf '.' tf_1
-      let hash := TF.indexOf '#' tf_1
-      if dot > 0 && (hash < 0 || dot < hash) then
-        match parseIntBase0 (tf_1.take dot.toNat) with
-        | none => (h, .panic .badInt)
-        | some integer =>
-          match L.getK h a .object integer with
-          | .ok (.obj r) =>
-            match unsetOGen fuel h r.addr (tf_1.drop dot.toNat) with
-            | (h_1, .panic p) => (h_1, .panic p)
-            | (h_1, .ok _) => (h_1, .ok ())
-          | .ok _ => (h, .panic .runtime)
-          | .panic p => (h, .panic p)
-      else if hash > 0 && (dot < 0 || hash < dot) then
-        match parseIntBase0 (tf_1.take hash.toNat) with
-        | none => (h, .panic .badInt)
-        | some integer_1 =>
-          match L.getK h a .list integer_1 with
-          | .ok (.list r_1) =>
-            match unsetLGen fuel h r_1.addr (tf_1.drop hash.toNat) with
-            | (h_2, .panic p) => (h_2, .panic p)
-            | (h_2, .ok _) => (h_2, .ok ())
-          | .ok _ => (h, .panic .runtime)
-          | .panic p => (h, .panic p)
-      else
-        match parseIntBase0 tf_1 with
-        | none => (h, .panic .badInt)
-        | some integer_2 =>
-          match L.delete h a [integer_2] with
-          | (h_3, .panic p) => (h_3, .panic p)
-          | (h_3, .ok _) => (h_3, .ok ())
-
-/-- `(*object).UnsetTF` (object_impl.go:620) -/
-def unsetOGen : Nat → Heap → Nat → Str → Heap × Out Unit
-  | 0, h, _, _ => (h, .panic .runtime)
-  | fuel + 1, h, a, tf =>
-    match TF.strip '.' tf with
-    | none => (h, .panic .badTF)
-    | some tf_1 =>
-      let dot := TF.indexOf '.' tf_1
-      let hash := TF.indexOf '#' tf_1
-      if dot > 0 && (hash < 0 || dot < hash) then
-        let key := tf_1.take dot.toNat
-        match O.getK h a .object key with
-        | .ok (.obj r) =>
-          match unsetOGen fuel h r.addr (tf_1.drop dot.toNat) with
-          | (h_1, .panic p) => (h_1, .panic p)
-          | (h_1, .ok _) => (h_1, .ok ())
-        | .ok _ => (h, .panic .runtime)
-        | .panic p => (h, .panic p)
-      else if hash > 0 && (dot < 0 || hash < dot) then
-        let key_1 := tf_1.take hash.toNat
-        match O.getK h a .list key_1 with
-        | .ok (.list r_1) =>
-          match unsetLGen fuel h r_1.addr (tf_1.drop hash.toNat) with
-          | (h_2, .panic p) => (h_2, .panic p)
-          | (h_2, .ok _) => (h_2, .ok ())
-        | .ok _ => (h, .panic .runtime)
-        | .panic p => (h, .panic p)
-      else
-        match O.unset h a [tf_1] with
-        | (h_3, .panic p) => (h_3, .panic p)
-        | (h_3, .ok _) => (h_3, .ok ())
-end
-
-/-! Go's comparisons of float64 values, on the model's exact predicates (rule R10): a comparison
-with NaN is false, |±Inf| exceeds every finite bound, `Trunc(±Inf) = ±Inf`. -/
-def goAbsGePow10 (v : F64) (n : Nat) : Bool := !v.isNaN && (v.isInf || F64.absGePow10 v n)
-def goAbsLeNegPow10 (v : F64) (n : Nat) : Bool := !v.isNaN && !v.isInf && F64.absLeNegPow10 v n
-def goAbsPos (v : F64) : Bool := !v.isNaN && !v.isZero
-def goEqTrunc (v : F64) : Bool := !v.isNaN && (v.isInf || v.isWhole)
-
-/-- `(*atNil).serialize` (anytype.go:494) -/
-def serNilGen : Str :=
-  ['n', 'u', 'l', 'l']
-
-/-- `(*atBool).serialize` (anytype.go:291) -/
-def serBoolGen (b : Bool) : Str :=
-  if b then ['t', 'r', 'u', 'e'] else ['f', 'a', 'l', 's', 'e']
-
-/-- `(*atInt).serialize` (anytype.go:357) -/
-def serIntGen (i : Int) : Str :=
-  itoa i
-
-/-- `(*atFloat).serialize` (anytype.go:423) -/
-def serFGen (f : F64) : Str :=
-  if goAbsGePow10 f 6 || goAbsPos f && goAbsLeNegPow10 f 6 then F64.fmtE f
-  else
-    let str := F64.fmtF f
-    if goEqTrunc f then str ++ ['.', '0']
-    else str
-
-/-- `(*atString).serialize` (anytype.go:234) -/
-def serStringGen (s : Str) : Str :=
-  quoteJSON s
-
-mutual
-/-- `value.serialize()`: dispatch on the dynamic type of the field; the arms of the containers are
-`(*list).serialize` (list_impl.go:161) and `(*object).serialize` (object_impl.go:136) -/
-def serGen : JVal → Str
-  | .null => serNilGen
-  | .bool b => serBoolGen b
-  | .int i => serIntGen i
-  | .float f => serFGen f
-  | .str s => serStringGen s
-  | .list xs =>
-    serGen_loop1 xs (['[']) ++ [']']
-  | .obj kvs =>
-    serGen_loop2 kvs (['{']) ++ ['}']
-/-- the loop at list_impl.go:164 over the remaining elements, `result` = the text written so far -/
-def serGen_loop1 : List JVal → Str → Str
-  | [], result => result
-  | value :: rest, result =>
-    if !rest.isEmpty then serGen_loop1 rest (result ++ serGen value ++ [','])
-    else serGen_loop1 rest (result ++ serGen value)
-/-- the loop at object_impl.go:140 over the remaining elements, `result` = the text written so far -/
-def serGen_loop2 : List (Str × JVal) → Str → Str
-  | [], result => result
-  | (field, value) :: rest, result =>
-    if !rest.isEmpty then serGen_loop2 rest (result ++ (quoteJSON field ++ [':'] ++ serGen value) ++ [','])
-    else serGen_loop2 rest (result ++ (quoteJSON field ++ [':'] ++ serGen value))
-end
-
-/-- `(*list).FormatString` (list_impl.go:335); `none` = panic -/
-def formatStringLGen (indent : Int) (xs : List JVal) : Option Str :=
-  if indent < 0 || indent > 10 then none
-  else if hasNonFinite (.list xs) then some []
-  else some (indentGo indent.toNat (serGen (.list xs)) false false false 0)
-
-/-- `(*object).FormatString` (object_impl.go:288); `none` = panic -/
-def formatStringOGen (indent : Int) (kvs : List (Str × JVal)) : Option Str :=
-  if indent < 0 || indent > 10 then none
-  else if hasNonFinite (.obj kvs) then some []
-  else some (indentGo indent.toNat (serGen (.obj kvs)) false false false 0)
-
-/-- what `unquoteJSON` does with the byte behind a backslash -/
-inductive UnescGen
-  | write (c : Char)   -- `result.WriteByte(c)`, then `i += 2`
-  | unicode            -- `case 'u'` (not translated)
-  | fail               -- `return ""`
-  deriving DecidableEq, Repr
-
-/-- the `switch str[i+1]` of `unquoteJSON` (parser.go:77), reached behind a backslash when a next byte exists, read
-for that byte as a character: every case is an ASCII literal, so a byte ≥ 0x80 takes `default` -/
-def unescGen (e : Char) : UnescGen :=
-  if e == '"' || e == '\\' || e == '/' then .write e
-  else if e == 'b' then .write '\x08'
-  else if e == 'f' then .write '\x0c'
-  else if e == 'n' then .write '\n'
-  else if e == 'r' then .write '\r'
-  else if e == 't' then .write '\t'
-  else if e == 'u' then .unicode
-  else .fail
-
-end Anytype.Generated
+#check (vextract_translation_failed : "anytype.go:428:5: unrecognised expression: float64(float32(val))")
